@@ -414,3 +414,76 @@ let () =
         | None -> false) in
       if ok_blocks && is_sync c && List.length c >= 5 then "k1-ok" else "k1-VIOLATED"
     | _ -> "badargs")
+
+(* wdict <size> <recycled: nil | - | hex | p<cap>:<a>> op... ;
+   op = i:<size> | b:<c> | c:<dist>:<len> | t:<dist>:<len> | r:<hex> | R:<n>:<a> | f | h | a
+   implementation-level model of flate.dictDecoder (Window/Dict.v) *)
+let wd_pat a n = List.init n (fun i -> n_of_int ((a * i + (i lsr 8) + a + 1) land 0xff))
+let wd_recycled (s : string) : n list option =
+  if s = "nil" then None
+  else if s = "-" then Some []
+  else if s.[0] = 'p' then Scanf.sscanf s "p%d:%d" (fun c a -> Some (wd_pat a c))
+  else Some (bytes_of_hex s)
+let wd_op (o : string) : dop = match colon o with
+  | ["i"; s] -> OpInit (z_of_string s)
+  | ["b"; c] -> OpWriteByte (n_of_int (int_of_string c))
+  | ["c"; d; l] -> OpWriteCopy (z_of_string d, z_of_string l)
+  | ["t"; d; l] -> OpTryWriteCopy (z_of_string d, z_of_string l)
+  | ["r"; h] -> OpWriteRaw (bytes_of_hex h)
+  | ["R"; n; a] -> OpWriteRaw (wd_pat (int_of_string a) (int_of_string n))
+  | ["f"] -> OpReadFlush
+  | ["h"] -> OpHistSize
+  | ["a"] -> OpAvailSize
+  | _ -> failwith ("wdict op " ^ o)
+let () =
+  register "wdict" (fun args -> match args with
+    | size :: recycled :: ops ->
+      let show_obs = function
+        | OUnit -> "u" | OCnt n -> z_to_string n | OBytes l -> hex_of_bytes l in
+      let show = function
+        | Ok ob -> show_obs ob | Panic -> "PANIC" | Hang -> "HANG" | Fuel -> "FUEL" in
+      (match dd_init (z_of_string size) (wd_recycled recycled) with
+       | Ok st ->
+         let (obs, fin) = dd_run st (List.map wd_op ops) in
+         let failed = List.exists (function Ok _ -> false | _ -> true) obs in
+         let shape = if failed then [] else
+           [Printf.sprintf "s:%s:%s:%s:%s:%d" (z_to_string fin.d_len) (z_to_string (d_cap fin))
+              (z_to_string fin.d_wr) (z_to_string fin.d_rd) (if fin.d_full then 1 else 0)] in
+         String.concat "," ("u" :: List.map show obs @ shape)
+       | r -> show (match r with Ok _ -> Ok OUnit | Panic -> Panic | Hang -> Hang | Fuel -> Fuel))
+    | _ -> "badargs");
+  register "wdspec" (fun args -> match args with
+    | size :: recycled :: ops ->
+      if check_spec (z_of_string size) (wd_recycled recycled) (List.map wd_op ops)
+      then "spec-ok" else "SPEC-VIOLATED"
+    | _ -> "badargs")
+
+(* wdictbr <size> <recycled> op... ; op = i:<size> | c:<dist>:<len> | r:<hex> | R:<n>:<a> | f | h | a | l
+   implementation-level model of brotli.dictDecoder (Window/DictBr.v) *)
+let wdb_op (o : string) : bop = match colon o with
+  | ["i"; s] -> BInit (z_of_string s)
+  | ["c"; d; l] -> BWriteCopy (z_of_string d, z_of_string l)
+  | ["r"; h] -> BWriteRaw (bytes_of_hex h)
+  | ["R"; n; a] -> BWriteRaw (wd_pat (int_of_string a) (int_of_string n))
+  | ["f"] -> BReadFlush
+  | ["h"] -> BHistSize
+  | ["a"] -> BAvailSize
+  | ["l"] -> BLastBytes
+  | _ -> failwith ("wdictbr op " ^ o)
+let () =
+  register "wdictbr" (fun args -> match args with
+    | size :: recycled :: ops ->
+      let show_obs = function
+        | OUnit -> "u" | OCnt n -> z_to_string n | OBytes l -> hex_of_bytes l in
+      let show = function
+        | Ok ob -> show_obs ob | Panic -> "PANIC" | Hang -> "HANG" | Fuel -> "FUEL" in
+      (match br_init (z_of_string size) (wd_recycled recycled) with
+       | Ok st ->
+         let (obs, fin) = br_run st (List.map wdb_op ops) in
+         let failed = List.exists (function Ok _ -> false | _ -> true) obs in
+         let shape = if failed then [] else
+           [Printf.sprintf "s:%s:%s:%s:%s:%d" (z_to_string fin.d_len) (z_to_string (d_cap fin))
+              (z_to_string fin.d_wr) (z_to_string fin.d_rd) (if fin.d_full then 1 else 0)] in
+         String.concat "," ("u" :: List.map show obs @ shape)
+       | Panic -> "PANIC" | Hang -> "HANG" | Fuel -> "FUEL")
+    | _ -> "badargs")
